@@ -31,6 +31,14 @@ impl Tier {
     }
 }
 
+static CURRENT_PROP: OnceLock<String> = OnceLock::new();
+pub fn set_current_prop(p: &str) {
+    let _ = CURRENT_PROP.set(p.to_string());
+}
+pub fn current_prop() -> String {
+    CURRENT_PROP.get().cloned().unwrap_or_else(|| "C01".to_string())
+}
+
 pub fn verif_dir() -> String {
     std::env::var("VERIF_DIR").unwrap_or_else(|_| "/verif".to_string())
 }
